@@ -52,15 +52,31 @@ def in_domain(*texts) -> bool:
     return all(all(c == "\n" or 32 <= ord(c) < 127 for c in t) for t in texts)
 
 
+NEWLINE_RE = re.compile(r"\r\n|\r|\n")
+
+
+def physical_lines(source):
+    """(start, end, text incl. terminator) of the physical lines as Python's tokenizer delimits them
+    (\\n, \\r\\n, \\r -- NOT form feed, U+2028 ... which str.splitlines also splits at)."""
+    out, pos = [], 0
+    for m in NEWLINE_RE.finditer(source):
+        out.append((pos, m.end(), source[pos:m.end()]))
+        pos = m.end()
+    if pos < len(source):
+        out.append((pos, len(source), source[pos:]))
+    return out
+
+
 def node_span(nodes, source):
-    """Character range of a run of nodes from their own (lineno, col_offset) -- ASCII sources only,
+    """Character range of a run of nodes from their own (lineno, col_offset in UTF-8 bytes) --
     independent of core.get_charnos and of find_replace's arithmetic."""
-    starts, pos = [], 0
-    for ln in source.split("\n"):
-        starts.append(pos)
-        pos += len(ln) + 1
-    a = min(starts[n.lineno - 1] + n.col_offset for n in nodes)
-    b = max(starts[n.end_lineno - 1] + n.end_col_offset for n in nodes)
+    lines = physical_lines(source) or [(0, 0, "")]
+
+    def pos(lineno, col):
+        a, _, text = lines[min(lineno, len(lines)) - 1]
+        return a + len(text.encode("utf-8")[:col].decode("utf-8", errors="ignore"))
+    a = min(pos(n.lineno, n.col_offset) for n in nodes)
+    b = max(pos(n.end_lineno, n.end_col_offset) for n in nodes)
     return (a, b)
 
 
@@ -71,10 +87,10 @@ def all_matches(mods, pattern, source):
     res = []
     with common.quiet():
         for rng, _, groups in processing.find_replace(source, pattern, "", yield_match=True):
-            d = groups._asdict() if hasattr(groups, "_asdict") else {}
+            d = groups_dict(groups)
             root = d.get("root")
             roots = list(root) if isinstance(root, (list, tuple)) else [root]
-            if roots and all(isinstance(r, ast.AST) and hasattr(r, "lineno") for r in roots) and source.isascii():
+            if roots and all(isinstance(r, ast.AST) and hasattr(r, "lineno") for r in roots):
                 span = node_span(roots, source)
             else:
                 span = (rng.start, rng.end)
@@ -151,6 +167,25 @@ def run_subn(mods, pattern, repl, source, count):
 
 
 def ignore_line_ranges(source):
+    """Physical lines that carry an ignore COMMENT (a comment token, not text inside a string)."""
+    lines = physical_lines(source)
+    res = set()
+    try:
+        toks = list(tokenize.generate_tokens(io.StringIO(NEWLINE_RE.sub("\n", source)).readline))
+    except (tokenize.TokenError, SyntaxError, IndentationError):
+        toks = None
+    if toks is None:
+        return [(a, b) for (a, b, t) in lines if IGNORE_RE.search(t)]
+    for t in toks:
+        if t.type == tokenize.COMMENT and IGNORE_RE.search(t.string) and t.start[0] - 1 < len(lines):
+            a, b, _ = lines[t.start[0] - 1]
+            res.add((a, b))
+    return sorted(res)
+
+
+def regex_ignore_line_ranges(source):
+    """What core.has_ignore_comment looks at ("\\n"-separated text, regex on the raw line): used for the
+    correspondence with the model, which mirrors the implementation."""
     res, pos = [], 0
     for line in source.split("\n"):
         end = min(len(source), pos + len(line) + 1)
@@ -189,7 +224,7 @@ class _Fill(ast.NodeTransformer):
     def visit_Name(self, node):
         m = re.fullmatch(HOLE % r"(\w+)", node.id)
         if m:
-            v = self.binds[m.group(1)]
+            v = self.binds.get(m.group(1))
             if isinstance(v, ast.Expr):
                 v = v.value
             if not isinstance(v, ast.expr):
@@ -201,42 +236,68 @@ class _Fill(ast.NodeTransformer):
         # a wildcard that is a whole statement may be bound to a statement
         if isinstance(node.value, ast.Name):
             m = re.fullmatch(HOLE % r"(\w+)", node.value.id)
-            if m and isinstance(self.binds[m.group(1)], ast.stmt):
+            if m and isinstance(self.binds.get(m.group(1)), ast.stmt):
                 return copy.deepcopy(self.binds[m.group(1)])
         return self.generic_visit(node)
 
 
-def _key(node):
-    return (type(node).__name__, node.lineno, node.col_offset, node.end_lineno, node.end_col_offset)
+class OutsideProperty(Exception):
+    """The tree-level substitution is not a program (or the template is not parseable on its own):
+    the property says nothing about this input."""
+
+
+def groups_dict(groups):
+    """Bindings of a match: namedtuple for patterns with wildcards, a plain 1-tuple (root,) without."""
+    if hasattr(groups, "_asdict"):
+        return groups._asdict()
+    return {"root": groups[0]} if isinstance(groups, tuple) and groups else {}
+
+
+def resolve_targets(tree, source, rng, root):
+    """The node(s) of OUR parse of the source that a match covers: for a single node the node of the
+    same type with exactly that span, for a statement sequence the consecutive statements of one block
+    that span the range."""
+    if isinstance(root, ast.AST) and hasattr(root, "lineno"):
+        for node in ast.walk(tree):
+            if type(node) is type(root) and hasattr(node, "lineno") and node_span([node], source) == tuple(rng):
+                return [node]
+        raise LookupError(f"no {type(root).__name__} node with span {rng}")
+    for node in ast.walk(tree):
+        for field in ("body", "orelse", "finalbody"):
+            block = getattr(node, field, None)
+            if not isinstance(block, list) or not block or not isinstance(block[0], ast.stmt):
+                continue
+            spans = [node_span([st], source) for st in block]
+            for i in range(len(block)):
+                if spans[i][0] == rng[0]:
+                    for j in range(i, len(block)):
+                        if spans[j][1] == rng[1]:
+                            return block[i:j + 1]
+    raise LookupError(f"no statement run with span {rng}")
 
 
 def reference_tree(source, repl, applied):
     """ast of the source with the matched nodes of every applied match replaced by the replacement
     template instantiated (at tree level) with that match's bindings.
-    applied: list of groups (namedtuples with .root and wildcard fields) of the applied matches."""
+    applied: list of (range, bindings as text, groups) of the applied matches."""
     tree = ast.parse(source)
-    index = {}
-    for node in ast.walk(tree):
-        if hasattr(node, "lineno"):
-            index.setdefault(_key(node), node)
-    plan = {}      # id(node) -> replacement (expr | list of stmts | "delete")
-    for groups in applied:
-        d = groups._asdict()
-        roots = d.get("root")
-        binds = {k: v for k, v in d.items() if k != "root"}
-        binds["root"] = roots
-        roots = roots if isinstance(roots, (list, tuple)) else [roots]
-        mine = [index[_key(r)] for r in roots]
-        if isinstance(mine[0], ast.expr):
-            new = _Fill(binds).visit(_template_tree(repl, "expr"))
-            plan[id(mine[0])] = new
-        else:
-            body = _template_tree(repl, "stmt") if repl.strip() else []
-            new = [_Fill(binds).visit(s) for s in body]
-            new = [x for s in new for x in (s if isinstance(s, list) else [s])]
-            plan[id(mine[0])] = new
-            for other in mine[1:]:
-                plan[id(other)] = []
+    plan = {}      # id(node) -> replacement (expr | list of stmts)
+    for (rng, _, groups) in applied:
+        d = groups_dict(groups)
+        binds = dict(d)
+        mine = resolve_targets(tree, source, rng, d.get("root"))
+        try:
+            if isinstance(mine[0], ast.expr):
+                new = _Fill(binds).visit(_template_tree(repl, "expr"))
+            else:
+                body = _template_tree(repl, "stmt") if repl.strip() else []
+                new = [_Fill(binds).visit(st) for st in body]
+                new = [x for st in new for x in (st if isinstance(st, list) else [st])]
+        except (SyntaxError, ValueError) as e:
+            raise OutsideProperty(str(e))
+        plan[id(mine[0])] = new
+        for other in mine[1:]:
+            plan[id(other)] = []
 
     class Apply(ast.NodeTransformer):
         def generic_visit(self, node):
@@ -259,7 +320,7 @@ def reference_tree(source, repl, applied):
                     if id(old) in plan:
                         r = plan[id(old)]
                         if isinstance(r, list):
-                            raise ValueError("statement list in a single-node position")
+                            raise OutsideProperty("statement list in a single-node position")
                         setattr(node, field, r)
                     else:
                         self.generic_visit(old)
@@ -298,10 +359,7 @@ def untouched_preserved(source, out, ranges):
     as a prefix of the output, those after the last touched line as its suffix."""
     if not ranges:
         return out == source
-    lines, pos = [], 0
-    for ln in source.splitlines(keepends=True):
-        lines.append((pos, pos + len(ln), ln))
-        pos += len(ln)
+    lines = physical_lines(source)
     touched = [any(overlaps((a, b), r) or (r[0] == r[1] and a <= r[0] < b) for r in ranges)
                for (a, b, _) in lines]
     if not any(touched):
@@ -359,13 +417,13 @@ def property_oracle(mods, pattern, repl, source, count, rec=None) -> list[dict]:
     if count > 0 and n > count:
         probs.append({"clause": "count", "detail": f"subn reports {n} replacements for count={count}"})
     for (a, b) in ilines:
-        if source[a:b].rstrip("\n") not in out:
+        if source[a:b].rstrip("\r\n") not in out:
             probs.append({"clause": "ignore", "detail": f"ignored line {source[a:b]!r} not in the output"})
     try:
-        ref = reference_tree(source, repl, [g for (_, _, g) in want])
+        ref = reference_tree(source, repl, want)
         ref_dump = dump_norm(ref)
         compile(ast.parse(ast.unparse(ref)), "<ref>", "exec")
-    except (ValueError, SyntaxError, KeyError, TypeError, AttributeError):
+    except (OutsideProperty, SyntaxError, ValueError):
         ref_dump = None   # the tree-level substitution is not a program: outside the property
     if ref_dump is not None:
         try:
@@ -413,7 +471,7 @@ def _parenthesised_variants(mods, case):
     text_p = text_a = text_b = source
     for r in got:
         binds, groups = ms[r]
-        root = groups._asdict().get("root")
+        root = groups_dict(groups).get("root")
         # same placement as find_replace: continuation lines follow the line the match starts on
         line = source[source.rfind("\n", 0, r[0]) + 1:r[1]].split("\n", 1)[0]
         ind = len(line) - len(line.lstrip(" ")) if line.strip() else 0
@@ -439,8 +497,8 @@ def _parenthesised_variants(mods, case):
     elif d(out) != d(text_p):
         return None
     try:
-        ref = dump_norm(reference_tree(source, repl, [ms[r][1] for r in got]))
-    except (SyntaxError, ValueError, KeyError):
+        ref = dump_norm(reference_tree(source, repl, [(r, ms[r][0], ms[r][1]) for r in got]))
+    except (OutsideProperty, SyntaxError, ValueError, LookupError):
         return None
     return ref, d(text_a), d(text_b)
 
@@ -716,6 +774,90 @@ def restructure_family():
                     yield (pat, repl, src, count)
 
 
+# ------------------------------------------------------------------------------------------------
+# round 4 families (bug-hunt reports): string-literal shapes, sole-argument generators, elif clauses,
+# one-line bodies and `;` neighbours, tab / CR / CRLF / other line separators, templates with comments,
+# multi-line strings and compound statements.  Oracle sweep on all of them; correspondence where the
+# text is inside the model's domain.
+
+STRING_SOURCES = [
+    "f(r'\\n')\n",                       # raw string
+    "v = f(R'\\d+', 1)\nw = '\\\\d+'\n",
+    "f(b'ab', rb'\\d')\n",
+    "x = f('a\\tb', \"it's\")\n",          # escapes
+    "x = f('\\x41\\u00e9')\n",
+    "a = '\\\\n'\nb = x\n",
+    "x = \'\'\'a \nb\'\'\'\n",                  # multi-line string, trailing blank inside
+    "if c:\n    x = \"\"\"a\n  b\n\"\"\"\n",
+    's = f"abc{x}"\n',                     # f-strings
+    "s = f'abc{x}' + 'abc'\n",
+    "t = f'{x=}' + f'{x!r:>10}'\n",
+    "u = f(f'{x}{f(1)}', f\"{f'{x}'}\")\n",
+    "w = f'id {x}'\nv = g(\"id\")\n",
+    "w = f'id{x}'\nv = f(\"id\")\n",
+]
+GENEXP_SOURCES = [
+    "z = f(i for i in x)\n",
+    "n = sum(len(v) for v in w)\n",
+    "n = sum((len(v) for v in w), 0) + max(v for v in w)\n",
+    "if any(f(i) for i in x):\n    z = list(i for i in x)\n",
+    "z = f((i for i in x))\nq = [i for i in x]\n",
+]
+BLOCK_SOURCES = [
+    "if a:\n    p()\nelif b:\n    q()\n",
+    "if a:\n    p()\nelif b:\n    q()\nelif c:\n    x = 1\nelse:\n    r()\n",
+    "if c: x = 1\n",
+    "if c: x = 1\nelse: x = 1\n",
+    "for i in j: x = 1\n",
+    "class A: x = 1\n",
+    "if a: w = 0; x = 1\n",
+    "if c:\n    x = 1; a = 0\n",
+    "x = 1; w = 3\n",
+    "y = f() + 1\n",
+    "if a:\n    p()\nif b:\n    for i in j:\n        q()\n",
+    "def k():\n    if b:\n        while c:\n            q()\n            x = 1\n    return f()\n",
+    "try:\n    x = 1\n    y = 2\nfinally:\n    x = 1\n    y = 2\n",
+]
+LAYOUT_SOURCES = [
+    "if a:\n\tx = 1\n",                                   # tab indentation
+    "def k():\n\tif a:\n\t\tx = 1\n\treturn f()\n",
+    "if c:\r    x = 1\r",                                 # CR only
+    "if c:\r\n    x = 1\r\ny = f()\r\n",                  # CRLF
+    "x = 1 \x0c # pyrefact: ignore\n",                    # form feed before the comment
+    "x = 1; s = '\u2028'  # pyrefact: ignore\n",
+    "s = \'\'\'\n# pyrefact: ignore\'\'\'; f()\n",           # comment-like text inside a string
+    "x = f('a\u2028b')\n",
+    "x = f('a\x0cb')  # c\ny = 2\n",
+]
+HUNT_RULES = [
+    # (pattern, replacements)
+    ("f({{a}})", ["g({{a}})", "f({{a}})", "g({{a}}, {{a}})"]),
+    ("f({{a}}, {{b}})", ["g({{b}}, {{a}})"]),
+    ("x = {{a}}", ["y = {{a}}", "x = {{a}}"]),
+    ("x", ["y", "r'\\n'"]),
+    ("'abc'", ["'xyz'"]),
+    ("\"id\"", ["'id'", "h('id')"]),
+    ("({{a}} for {{b}} in {{c}})", ["y", "g({{a}}, {{c}})", "[{{a}} for {{b}} in {{c}}]", "({{a}} for {{b}} in {{c}})",
+                                     "({{a}} for {{b}} in h({{c}}))"]),
+    ("sum({{g}})", ["sum(list({{g}}))"]),
+    ("if {{c}}:\n    {{b}}", ["if not {{c}}:\n    {{b}}", "while {{c}}:\n    {{b}}", "if {{c}}:\n    {{b}}"]),
+    ("x = 1", ["x = 2\ny = 3", "if d:\n    x = 2", "x = 2  # c", "x = \'\'\'a\nb\'\'\'", "x = 2"]),
+    ("f()", ["g()  # c", "g()"]),
+    ("\'\'\'a\nb\'\'\'", ["\'\'\'a\n\nb\'\'\'"]),
+    ("\'\'\'a \nb\'\'\'", ["\'\'\'a\nb\'\'\'"]),
+    ("x = 1\ny = 2", ["z = 3"]),
+    ("{{t}} = {{v}}", ["{{t}} = (\n    {{v}}\n)", "{{t}} = h(\'\'\'k\n  l\'\'\', {{v}})"]),
+]
+
+
+def hunt_family():
+    srcs = STRING_SOURCES + GENEXP_SOURCES + BLOCK_SOURCES + LAYOUT_SOURCES
+    for (pat, repls) in HUNT_RULES:
+        for repl in repls:
+            for src in srcs:
+                yield (pat, repl, src, 0)
+
+
 def fixed_family(with_comments=False):
     """Seed-independent small-scope family: every pattern x every replacement of its kind x the fixed
     sources x count in {0, 1, 2}."""
@@ -769,7 +911,7 @@ def g_subn_case(case, ms, rec) -> str:
     else:
         items = "(Some " + glist([f"({g_range(r)}, {gtext(t)})" for (r, t) in rec["items"]]) + ")"
     sched = glist([f"({gz(g)}, {gz(t)}, {gz(s)}, {gz(e)}, {gtext(n)})" for (g, t, s, e, n) in rec["sched"]])
-    il = glist([g_range(r) for r in ignore_line_ranges(source)])
+    il = glist([g_range(r) for r in regex_ignore_line_ranges(source)])
     n = rec["n"] if rec["n"] is not None else -1
     return (f"(mkSubn {gtext(source)} {gtext(repl)} {gz(count)} {matches} {valid} {il} {items} {sched} "
             f"{gtext(rec['cand'])} {gz(n)})")
